@@ -46,6 +46,43 @@ def run(repo, chk):
     rule_order(repo, chk)
     rule_stale(repo, chk)
     rule_roles(chk, base)
+    rule_wait(repo, chk)
+
+
+def rule_wait(repo, chk):
+    """The kernel wait of the interchangeable pollers fails alike."""
+    chk.rule('C10.i', 'the wait call of Poll and EPoll: an interrupted wait (EINTR) ends the iteration quietly, any other failure leaves the handler as the exception it is; '
+                      'the readiness list is bound on every path that reaches the loop over it')
+    from sa import concrete
+    for cname in ('Poll', 'EPoll'):
+        f = repo.cls(POLLERS, cname).methods.get('_generate_events')
+        need(f, f'C10.i: {cname}._generate_events missing')
+        chk.touch(f)
+        g = f.cfg()
+        loops = [n for n in g.nodes if n.kind == 'for' and isinstance(n.ast.iter, ast.Name)]
+        need(loops, f'C10.i: {cname}._generate_events has no loop over the readiness list')
+        lp = loops[0]
+        rv = lp.ast.iter.id
+        it = [n for n in g.nodes if n.kind == 'iter' and n.ast is lp.ast.iter]
+        defs = Q.reaching_defs(g, it[0] if it else lp, rv)
+        unbound = [d for d in defs if d.kind == 'entry']
+        chk.ob('i', f.ref, 'the readiness list is bound on every path that reaches the loop over it (a failed wait does not fall through to the loop)', not unbound and bool(defs),
+               loc(f, lp.ast), discr='wait-result-bound')
+        waits = [n for n in g.nodes if n.kind == 'stmt' and rv in Q.node_defs(n)]
+        hs = [e.dst for n in waits for e in n.succ if e.kind == 'x' and e.dst.kind == 'except' and e.exc in ('OSError', 'Exception', '*')]
+        need(hs, f'C10.i: {cname}._generate_events does not catch a failing wait')
+        h = hs[0]
+        en = h.ast.name
+        if en is None:
+            chk.ob('i', f.ref, 'a failed wait is classified by its errno', False, loc(f, h.ast), discr='wait-errno')
+            continue
+        env = {'EINTR': 'EINTR', '$errno.EINTR': 'EINTR'}
+        quiet = concrete.escapes(g, h, dict(env, **{f'${en}.args[0]': 'EINTR', f'${en}.errno': 'EINTR'}), lambda n: False, exits=('raise',), goal=lambda n: n is lp)
+        chk.ob('i', f.ref, 'an interrupted wait (EINTR) ends the iteration quietly', quiet is None, loc(f, h.ast), path=pat.path_lines(quiet, h) if quiet else None,
+               discr='wait-eintr-quiet')
+        lost = concrete.escapes(g, h, dict(env, **{f'${en}.args[0]': 'EOTHER', f'${en}.errno': 'EOTHER'}), lambda n: False, exits=('exit',), goal=lambda n: n is lp)
+        chk.ob('i', f.ref, 'a wait that failed for another reason leaves the handler as the exception it is (as in the sibling poller)', lost is None, loc(f, h.ast),
+               path=pat.path_lines(lost, h) if lost else None, discr='wait-error-raised')
 
 
 def rule_roles(chk, base):
